@@ -259,11 +259,7 @@ def dependencies(validator, dependencies, instance, schema):
 
 
 def enum(validator, enums, instance, schema):
-    if instance == 0 or instance == 1:
-        unbooled = unbool(instance)
-        if all(unbooled != unbool(each) for each in enums):
-            yield ValidationError("%r is not one of %r" % (instance, enums))
-    elif instance not in enums:
+    if not any(equal(instance, each) for each in enums):
         yield ValidationError("%r is not one of %r" % (instance, enums))
 
 
